@@ -41,6 +41,9 @@ Import ListNotations.
 Local Open Scope Z_scope.
 
 Inductive engine := EScorch | EScorchS2 | EUpsidedown.
+Inductive shape_kind := KDistance | KPolygon.
+(* trusted classification of a (point, circle-or-polygon) pair *)
+Inductive pclass := PIn | POut | PNear.
 
 (* a point of a document: float bits of lon and lat as given to the indexer, and the value
    geo.MortonHash returned for them *)
@@ -51,10 +54,12 @@ Inductive case :=
 | CDeinterleave (b impl : Z)
 | CHash (lon lat impl : Z)
 | CUnhash (h impl_lon impl_lat : Z)
-| CRange (minlon minlat maxlon maxlat : Z) (check_b : bool) (impl_on impl_not : list bytes)
+| CRange (minlon minlat maxlon maxlat : Z) (check_b : bool) (impl_on impl_not : list Z)
+    (* each returned term as the big-endian base-256 value of its bytes (the first byte of a
+       prefix-coded term is >= 0x20, so the value determines the term) *)
 | CBox (e : engine) (tl_lon tl_lat br_lon br_lat : Z) (docs : list (list pt)) (impl_hits : list bool)
-| CShape (e : engine) (kind : Z) (docs : list (list (Z * Z))) (impl_hits : list bool)
-    (* kind 0 = distance query, 1 = polygon query; a point is (MortonHash, class) *)
+| CShape (e : engine) (kind : shape_kind) (docs : list (list (Z * pclass))) (impl_hits : list bool)
+    (* a point is (MortonHash, class supplied by the harness) *)
 | CSort (desc : bool) (lo hi : list Z) (impl_order : list Z).
     (* one point per document; [lo, hi] = interval (micrometres) that contains the document's true
        distance under every earth radius between polar and equatorial (trusted harness computation) *)
@@ -156,11 +161,14 @@ Definition rect_of_bits (minlon minlat maxlon maxlat : Z) : option (Z * rect) :=
   | _ => None
   end.
 
-Definition model_range (minlon minlat maxlon maxlat : Z) (cb : bool) : option (list bytes * list bytes) :=
+Definition term_values (ts : list bytes) : list Z := map (be_value 256) ts.
+
+Definition model_range (minlon minlat maxlon maxlat : Z) (cb : bool) : option (list Z * list Z) :=
   match rect_of_bits minlon minlat maxlon maxlat with
   | Some (k, q) =>
       match safe_range k q cb with
-      | Some cs => Some (on_boundary_terms (fun _ => true) cs, not_on_boundary_terms (fun _ => true) cs)
+      | Some cs => Some (term_values (on_boundary_terms (fun _ => true) cs),
+                         term_values (not_on_boundary_terms (fun _ => true) cs))
       | None => None
       end
   | None => None
@@ -283,26 +291,26 @@ Definition check_box (e : engine) (tl_lon tl_lat br_lon br_lat : Z) (docs : list
 
 (* ---------- distance and polygon queries: classes supplied with the case ---------- *)
 
-Definition class_tv (c : Z) : tv := if c =? 0 then TT else if c =? 1 then FF else UU.
+Definition class_tv (c : pclass) : tv := match c with PIn => TT | POut => FF | PNear => UU end.
 
 (* SPEC: any-value rule *)
-Definition spec_doc_shape (vals : list (Z * Z)) : tv := tv_any (fun v => class_tv (snd v)) vals.
+Definition spec_doc_shape (vals : list (Z * pclass)) : tv := tv_any (fun v => class_tv (snd v)) vals.
 
 (* MODEL: the filter variant in force; the candidate stage is not modelled for shapes, so a
    document whose visited values are all clearly inside is required to match only because a
    clearly-inside point is a candidate (that is part of what is tested) *)
-Definition model_doc_shape_ordered (early : bool) (ordered : list (Z * Z)) : tv :=
+Definition model_doc_shape_ordered (early : bool) (ordered : list (Z * pclass)) : tv :=
   tv_any (fun v => class_tv (snd v)) (if early then firstn 1 ordered else ordered).
 
-Fixpoint insert_sorted_p (x : Z * Z) (l : list (Z * Z)) : list (Z * Z) :=
+Fixpoint insert_sorted_p (x : Z * pclass) (l : list (Z * pclass)) : list (Z * pclass) :=
   match l with
   | [] => [x]
   | y :: l' => if wrap64 (fst x) <? wrap64 (fst y) then x :: l
                else if wrap64 (fst x) =? wrap64 (fst y) then l else y :: insert_sorted_p x l'
   end.
-Definition sort_p (vals : list (Z * Z)) : list (Z * Z) := fold_left (fun acc v => insert_sorted_p v acc) vals [].
+Definition sort_p (vals : list (Z * pclass)) : list (Z * pclass) := fold_left (fun acc v => insert_sorted_p v acc) vals [].
 
-Definition model_allows_shape (e : engine) (early : bool) (vals : list (Z * Z)) (hit : bool) : bool :=
+Definition model_allows_shape (e : engine) (early : bool) (vals : list (Z * pclass)) (hit : bool) : bool :=
   match e with
   | EUpsidedown =>
       if early then
@@ -314,11 +322,11 @@ Definition model_allows_shape (e : engine) (early : bool) (vals : list (Z * Z)) 
   | _ => tv_allows (model_doc_shape_ordered early (sort_p vals)) hit
   end.
 
-Definition shape_early (kind : Z) : bool :=
-  if kind =? 0 then XGeo.dist_filter_early_return else XGeo.polygon_filter_early_return.
+Definition shape_early (kind : shape_kind) : bool :=
+  match kind with KDistance => XGeo.dist_filter_early_return | KPolygon => XGeo.polygon_filter_early_return end.
 
-Definition check_shape (e : engine) (kind : Z) (docs : list (list (Z * Z))) (hits : list bool) : bool :=
-  (length hits =? length docs)%nat && ((kind =? 0) || (kind =? 1)) &&
+Definition check_shape (e : engine) (kind : shape_kind) (docs : list (list (Z * pclass))) (hits : list bool) : bool :=
+  (length hits =? length docs)%nat &&
   forallb (fun dh => let '(d, hit) := dh in
              tv_allows (spec_doc_shape d) hit && model_allows_shape e (shape_early kind) d hit)
           (combine docs hits).
@@ -357,7 +365,7 @@ Definition check (c : case) : bool :=
   | CUnhash h lon lat => check_unhash h lon lat
   | CRange a b c d cb on_ not_ =>
       match model_range a b c d cb with
-      | Some (m_on, m_not) => bytes_list_eqb m_on on_ && bytes_list_eqb m_not not_
+      | Some (m_on, m_not) => list_eqb Z.eqb m_on on_ && list_eqb Z.eqb m_not not_
       | None => false
       end
   | CBox e a b c d docs hits => check_box e a b c d docs hits
@@ -368,7 +376,7 @@ Definition check (c : case) : bool :=
 Inductive expl :=
 | EZ (a b c : Z)
 | EB (a b : bool)
-| ERange (o : option (list bytes * list bytes))
+| ERange (o : option (list Z * list Z))
 | EDocs (early : bool) (spec : list Z) (model_ok : list bool) (points_ok : list (list bool))
       (* per document: spec verdict (1 must match, 0 must not, 2 either), does the
          implementation's answer agree with the model of the code in force *)
